@@ -92,6 +92,64 @@ HARNESSES = [
      "stubs": [], "replay": "escape"},
 ]
 
+V = "token::variance::verif_kani::"
+RANGE_FUNCS = ["<BoundedVariantRange as Conjunction>::conjunction", "NaturalRange::by_bound_with",
+               "<NaturalBound as Conjunction>::conjunction", "NaturalRange::from_closed_and_open",
+               "BoundedVariantRange::try_from_lower_and_upper"]
+
+
+def _var(name, props, tier, functions, bounds, replay):
+    return {"name": V + name, "props": props, "tier": tier, "functions": functions, "bounds": bounds,
+            "stubs": [], "replay": replay}
+
+
+HARNESSES += [
+    _var("total_conjunction_bounded_ranges", ["C05"], "quick", RANGE_FUNCS,
+         "all operand shapes (Lower/Upper/Both) x all magnitudes below 2^31", "range_totality"),
+    _var("total_conjunction_depth_variance", ["C05"], "quick",
+         ["<TokenVariance<Depth> as Conjunction>::conjunction", "BoundedVariantRange::translation",
+          "BoundedVariantRange::opened_upper_bound", "Depth::into_lower_bound"] + RANGE_FUNCS,
+         "all 3x3 term shapes x all magnitudes below 2^31", "range_totality"),
+    _var("total_conjunction_size_variance", ["C05"], "quick",
+         ["<TokenVariance<Size> as Conjunction>::conjunction"] + RANGE_FUNCS,
+         "all 3x3 term shapes x all magnitudes below 2^31", "range_totality"),
+    _var("total_disjunction_depth_variance", ["C05"], "quick",
+         ["<TokenVariance<Depth> as Disjunction>::disjunction", "BoundedVariantRange::union", "Depth::bound",
+          "NaturalRange::by_lower_and_upper_with"], "all term shapes, full 64-bit width", "range_totality"),
+    _var("total_union_and_openings", ["C05"], "quick",
+         ["BoundedVariantRange::union", "BoundedVariantRange::opened_lower_bound",
+          "BoundedVariantRange::opened_upper_bound", "BoundedVariantRange::lower", "BoundedVariantRange::upper"],
+         "all operand shapes, full 64-bit width", "range_totality"),
+    _var("total_from_closed_and_open", ["C05"], "quick", ["NaturalRange::from_closed_and_open",
+         "NaturalRange::lower", "NaturalRange::upper"], "all (usize, Option<usize>)", "range_totality"),
+    _var("total_translation", ["C05"], "quick", ["BoundedVariantRange::translation"],
+         "all shapes, magnitudes and vectors below 2^31", "range_totality"),
+    _var("full_width_conjunction_lower_bounds", ["C05"], "quick", RANGE_FUNCS,
+         "Lower x Lower, full 64-bit width (the checked_add().expect(\"overflow ...\") is reachable)",
+         "range_totality"),
+    _var("sound_conjunction_bounded_ranges", ["C10"], "quick", RANGE_FUNCS,
+         "all shapes, operands and members below 2^62", "range_soundness"),
+    _var("sound_conjunction_depth_variance", ["C10"], "quick",
+         ["<TokenVariance<Depth> as Conjunction>::conjunction"] + RANGE_FUNCS,
+         "all 3x3 term shapes, operands and members below 2^62", "range_soundness"),
+    _var("sound_disjunction_depth_variance", ["C10"], "quick",
+         ["<TokenVariance<Depth> as Disjunction>::disjunction", "BoundedVariantRange::union", "Depth::bound"],
+         "all 3x3 term shapes, operands below 2^62", "range_soundness"),
+    _var("sound_opened_upper_bound", ["C10"], "quick", ["BoundedVariantRange::opened_upper_bound"],
+         "all shapes, operands below 2^62", "range_soundness"),
+]
+for _n, _t in [("exactly_0", "quick"), ("exactly_1", "quick"), ("exactly_3", "quick"), ("unbounded_k0", "quick"),
+               ("unbounded_k7", "thorough"), ("lower2_k2", "quick"), ("lower2_k7", "thorough"),
+               ("upper3_k0", "quick"), ("upper3_k3", "quick"), ("upper1_k1", "thorough"),
+               ("both_1_3_k1", "quick"), ("both_2_5_k4", "quick"), ("both_2_5_k5", "thorough"),
+               ("both_1_2_k2", "thorough")]:
+    HARNESSES.append(_var("sound_product_" + _n, ["C10", "C05"], _t,
+                          ["<TokenVariance<Depth> as Product<NaturalRange>>::product",
+                           "<BoundedVariantRange as Product>::product", "<Depth as Product<VariantRange>>::product",
+                           "<NaturalBound as Product>::product"],
+                          "repetition range and multiplicity from the constant table (%s); body variance symbolic below 2^40" % _n,
+                          "range_soundness"))
+
 
 def for_property(pid, tier):
     out = []
